@@ -1,5 +1,29 @@
 """Which contract families decide which property, and at what claimed level."""
 PROPS = {
+    'C08': {
+        'families': ['contracts.recording', 'contracts.execution'],
+        'level': 'proof',
+        'technique': 'contract-based deductive verification: VCs from the real AST, z3/cvc5',
+        'text': 'Per-run obligations: get_unapplied_evolutions = order-preserving filter of the sequence by "not recorded"; '
+                'Evolver._save_project_sig records every new evolution exactly once, attached to the version saved by this run; '
+                'Evolver.evolve records only after every task executed and nothing when a task fails.',
+        'level_note': 'Trusted: pyvc engine/encoding; the ORM queries (applied labels, bulk_create assumed atomic), evolution module '
+                      'discovery. Not decided: histories interleaving mark-evolution-applied/wipe-evolution; runs limited to selected '
+                      'apps; an app absent from the stored signature is assumed to have no recorded rows.',
+        'not_decided': ['whole-history clauses (interleaved management commands)', 'EvolveAppTask.prepare branch selection (in progress)'],
+    },
+    'C15': {
+        'families': ['contracts.deletion'],
+        'level': 'proof',
+        'technique': 'contract-based deductive verification: whole-view frame postconditions, VCs from the real AST, z3/cvc5',
+        'text': 'DeleteModel.simulate removes exactly the named model of the simulated app and leaves every other app entry and the '
+                'set of apps unchanged (frame stated over the whole project view); DeleteApplication.simulate removes exactly the '
+                'models routed to the evolved database; purge tasks are queued only under --purge (syntactic obligations on the '
+                'real AST); DeleteModel.mutate drops the model table and its M2M tables only.',
+        'level_note': 'Trusted: pyvc engine/encoding; remove_model_sig stub; is_mutable as an uninterpreted predicate (see C16 known '
+                      'finding). Not decided: tables/rows of the real database afterwards (bounded native scenarios).',
+        'not_decided': ['actual table list and rows of the database after purge/delete'],
+    },
     'C11': {
         'families': ['contracts.refs'],
         'level': 'proof',
